@@ -152,7 +152,7 @@ EXPORT char *_gets_s_chk(char *restrict dest, rsize_t dmax,
     if (likely(ret)) {
         rsize_t len = (rsize_t)strnlen(dest, dmax);
         if (len > 0 && dest[len - 1] == '\n') {
-            dest[len - 1] = 0;
+            dest[--len] = 0;
         } else if (len == (rsize_t)(dmax - 1) && !feof(stdin)) {
             /* dest is full: the line fits only if it ends right here */
             int c = getc(stdin);
@@ -163,6 +163,10 @@ EXPORT char *_gets_s_chk(char *restrict dest, rsize_t dmax,
                 goto nospc;
             }
         }
+#ifdef SAFECLIB_STR_NULL_SLACK
+        if (ret && len < dmax)
+            memset(dest + len, 0, dmax - len);
+#endif
     } else {
         if (!feof(stdin) && errno == 0) { /* closed? */
         nospc:
